@@ -44,6 +44,9 @@ class M09(mir2.Machine):
             return ("result", m.group(1), self.operand(st, frame, mirsmt.parse_operand(m.group(2))))
         if re.match(r"^parse_locales::error::Error::\w+( \{.*\})?$", r):
             return ("error", r.split("::")[3].split(" ")[0])
+        m = re.match(r"^(?:std::ops::)?(RangeFrom|RangeTo)::<usize> \{ (start|end): (.*) \}$", r)
+        if m:
+            return ("range", m.group(1), self.operand(st, frame, mirsmt.parse_operand(m.group(3))))
         return super().rvalue(st, frame, r, fn, stmt)
 
     def operand(self, st, frame, o):
@@ -254,6 +257,153 @@ def decide_kernel(mir, k, timeout_ms=60000):
     return finish(res, m)
 
 
+def decide_component_kernel(mir, k, timeout_ms=60000):
+    """find_valid_component + find_opening_tag on a value of k symbolic scalar values; find_closing_tag (which decides
+    whether an opening tag has its closing tag) is a call that answers None or Some: the loop then skips by the offset
+    find_opening_tag computed.  Panic = slicing the value off a character boundary / past its end, or an overflow."""
+    chars = [z3.Const("char_%d" % i, C32) for i in range(k)]
+    domain = [z3.And(z3.ULE(c, 0x10FFFF), z3.Not(z3.And(z3.UGE(c, 0xD800), z3.ULE(c, 0xDFFF)))) for c in chars]
+    offs = [z3.BitVecVal(0, 64)]
+    for c in chars:
+        offs.append(z3.simplify(offs[-1] + width(c)))
+    closes = [z3.Bool("opening_tag_%d_has_its_closing_tag" % i) for i in range(k + 1)]
+    calls = {"n": 0}
+
+    def ret(st, v):
+        return [(st, v)]
+
+    def sub(a, b):
+        return ("ustr", tuple(chars[a:b]), a)
+
+    def bounds(sv):
+        return sv[2], sv[2] + len(sv[1])
+
+    def s_index(m, st, args, callee):
+        sv, r = m.deref_all(st, args[0]), args[1]
+        a, b = bounds(sv)
+        if (a, b) != (0, k):
+            raise Unsupported("slicing a substring")
+        outs = []
+        for j in range(k + 1):
+            cond = r[2] == offs[j]
+            if m.feasible(st, cond):
+                outs.append((st.fork(z3.simplify(cond)), sub(j, k) if r[1] == "RangeFrom" else sub(0, j)))
+        return outs                # any other offset: the slice panics
+
+    def s_split_once_char(m, st, args, callee):
+        sv, ch = m.deref_all(st, args[0]), args[1]
+        a, b = bounds(sv)
+        outs = []
+        none_before = []
+        for p in range(a, b):
+            hit = z3.And(none_before + [chars[p] == ch])
+            if m.feasible(st, hit):
+                outs.append((st.fork(z3.simplify(hit)), ("opt", z3.BoolVal(True), ("tuple", (sub(a, p), sub(p + 1, b))))))
+            none_before.append(chars[p] != ch)
+        miss = z3.And(none_before) if none_before else z3.BoolVal(True)
+        if m.feasible(st, miss):
+            outs.append((st.fork(z3.simplify(miss)), ("opt", z3.BoolVal(False), None)))
+        return outs
+
+    def s_len(m, st, args, callee):
+        sv = m.deref_all(st, args[0])
+        a, b = bounds(sv)
+        return ret(st, z3.simplify(offs[b] - offs[a]))
+
+    def is_ws(c):
+        return z3.Or([c == w for w in WS])
+
+    def s_trim(m, st, args, callee):
+        sv = m.deref_all(st, args[0])
+        a, b = bounds(sv)
+        outs = []
+        for lo in range(a, b + 1):
+            for hi in range(lo, b + 1):
+                if lo == b and hi != b:
+                    continue
+                conds = [is_ws(chars[q]) for q in range(a, lo)] + [is_ws(chars[q]) for q in range(hi, b)]
+                if lo < hi:
+                    conds += [z3.Not(is_ws(chars[lo])), z3.Not(is_ws(chars[hi - 1]))]
+                elif lo != b:
+                    continue
+                cond = z3.And(conds) if conds else z3.BoolVal(True)
+                if m.feasible(st, cond):
+                    outs.append((st.fork(z3.simplify(cond)), sub(lo, hi)))
+        return outs
+
+    def s_closing(m, st, args, callee):
+        i = min(calls["n"], k)
+        calls["n"] += 1
+        f = closes[i]
+        outs = []
+        if m.feasible(st, f):
+            outs.append((st.fork(f), ("opt", z3.BoolVal(True), ("tuple", (("key",), ("between",), ("after",))))))
+        if m.feasible(st, z3.Not(f)):
+            outs.append((st.fork(z3.Not(f)), ("opt", z3.BoolVal(False), None)))
+        return outs
+
+    def s_opening(m, st, args, callee):
+        return m.call_fn(m.fn(r"::find_opening_tag\(_1: &str\)"), list(args), st)
+
+    def s_branch(m, st, args, callee):
+        o = args[0]
+        return ret(st, ("cf", o[1], o[2]))
+
+    def s_from_residual(m, st, args, callee):
+        return ret(st, ("opt", z3.BoolVal(False), None))
+
+    summaries = [
+        (r"^<str as std::ops::Index<(std::ops::)?Range(From|To)<usize>>>::index$", s_index),
+        (r"^core::str::<impl str>::split_once::<char>$", s_split_once_char),
+        (r"^core::str::<impl str>::len$", s_len),
+        (r"^core::str::<impl str>::trim$", s_trim),
+        (r"^ParsedValue::find_closing_tag$", s_closing),
+        (r"^ParsedValue::find_opening_tag$", s_opening),
+        (r"as Try>::branch$", s_branch),
+        (r"as FromResidual<.*>>::from_residual$", s_from_residual),
+    ]
+    m = M09(mir, summaries, unroll=k + 3, max_paths=100000)
+    st = mir2.St()
+    for d in domain:
+        st.pc.append(d)
+    fn = m.fn(r"::find_valid_component\(_1: &str\)")
+    outs = m.call_fn(fn, [sub(0, k)], st)
+    res = {"kernel": "find_valid_component", "chars": k, "paths": len(outs), "status": "unsat", "solver_checks": 0, "solver_s": 0.0}
+    for st1, v in outs:
+        for ob in st1.obligations:
+            if ob[0] != "assert":
+                continue
+            sol = z3.Solver()
+            sol.set("timeout", timeout_ms)
+            sol.add(ob[1])
+            sol.add(z3.Not(ob[2]))
+            t0 = time.time()
+            r = sol.check()
+            res["solver_s"] += time.time() - t0
+            res["solver_checks"] += 1
+            if r != z3.unsat:
+                res["status"] = "sat" if r == z3.sat else "unknown"
+                if r == z3.sat:
+                    res["model"] = {"string": model_string(sol.model(), chars), "what": "an overflow assertion fails"}
+                return finish(res, m)
+    sol = z3.Solver()
+    sol.set("timeout", timeout_ms)
+    sol.add(domain)
+    sol.add(z3.Not(z3.Or([z3.And(st1.pc) for st1, _ in outs])) if outs else z3.BoolVal(True))
+    t0 = time.time()
+    r = sol.check()
+    res["solver_s"] += time.time() - t0
+    res["solver_checks"] += 1
+    if r == z3.sat:
+        res["status"] = "sat"
+        res["model"] = {"string": model_string(sol.model(), chars), "what": "no returning path: slicing the value panics"}
+    elif r != z3.unsat:
+        res["status"] = "unknown"
+    if m.unwinding:
+        res["status"] = "unknown"
+    return finish(res, m)
+
+
 def finish(res, m):
     res["mir_fns"] = sorted(m.mir_fns_run)
     res["calls"] = sorted(m.calls_seen)
@@ -438,16 +588,27 @@ def run(tier, seed):
                 sat.append(r)
             elif r["status"] != "unsat":
                 inconclusive.append("kernel %d chars: %s" % (k, r["status"]))
+        for k in ([0, 1, 2, 3, 4] if tier == "quick" else [0, 1, 2, 3, 4, 5, 6]):
+            try:
+                r = decide_component_kernel(mir, k)
+            except Unsupported as e:
+                inconclusive.append("component kernel %d chars: UNSUPPORTED %s" % (k, e))
+                continue
+            runs.append(r)
+            if r["status"] == "sat":
+                sat.append(r)
+            elif r["status"] != "unsat":
+                inconclusive.append("component kernel %d chars: %s" % (k, r["status"]))
     except Unsupported as e:
         inconclusive.append("MIR of leptos_i18n_parser: %s" % e)
     violations = 0
     known = report.load_known()
     # kernel counterexamples: the argument text behind `$t(a,` through the real ParsedValue::new
     for r in sat[:3]:
-        text = "$t(a," + r["model"]["string"]
+        text = r["model"]["string"] if r.get("kernel") == "find_valid_component" else "$t(a," + r["model"]["string"]
         p = subprocess.run([hostrun.HOST_BIN, "parsevalue"], input=json.dumps(text) + "\n", capture_output=True, text=True, env=hostrun.ENV)
         pan = [json.loads(l) for l in p.stdout.split("\n") if l.strip().startswith("{\"panic\"") or "\"panic\"" in l]
-        path = report.write_replay(prop, "kernel_%d" % r["chars"], dict(r, value=text, native=pan[:1], how_to_replay="echo '%s' | host/target/debug/verif-host parsevalue" % json.dumps(text)))
+        path = report.write_replay(prop, "kernel_%s%d" % ("component_" if r.get("kernel") else "", r["chars"]), dict(r, value=text, native=pan[:1], how_to_replay="echo '%s' | host/target/debug/verif-host parsevalue" % json.dumps(text)))
         if pan:
             print("VIOLATION property=C09 replay=%s" % path)
             print("  ParsedValue::new(%s) panics: %s" % (json.dumps(text), pan[0].get("message", "")[:160]))
